@@ -84,12 +84,12 @@ PROPS = {
         rule="actions {sub/unsub (1-4 unique filters)/ping with quit in {nil, closed, fired later}, answer (any owed response, "
              "drawn return codes incl. 0x80, optional duplicate), unsolicited SUBACK/UNSUBACK/PINGRESP, fireQuit, break, "
              "armWrite(reset|timeout|park|timeout-with-progress), releaseWrite, gate/releaseGate on {sub,unsub}.{fail,quit}, "
-             "appStep}, then Close or drain. The interleaving of finding F7 (a Ping issued while an earlier Ping may still run "
-             "its epilogue) is excluded by construction and counted; TestC11KnownF07 reproduces it deterministically. "
+             "appStep}, then Close or drain. Pings overlap freely (the exclusion for finding F7 was lifted with its repair); "
+             "TestC11PingSlotOwnership replays the history of F7 with the hook ping.fail. "
              "Non-trivial: >= 2 requests in flight when a response, a connection loss or a quit arrived.",
         assumptions=ASSUME_SIM,
-        quick=dict(engines=[rapid('^TestC11Requests', 2400, steps=40), rapid('^TestC11CounterLap', 8, shards=8, fixed=True), rapid('^TestC11KnownF07', 3, shards=1, fixed=True)]),
-        thorough=dict(engines=[rapid('^TestC11Requests', 60000, shards=14, steps=70, timeout=1500), rapid('^TestC11Requests', 2000, shards=8, steps=50, timeout=1500, race=True), rapid('^TestC11CounterLap', 56, shards=14, timeout=1500, fixed=True), rapid('^TestC11KnownF07', 3, shards=1, fixed=True)]),
+        quick=dict(engines=[rapid('^TestC11Requests', 2400, steps=40), rapid('^TestC11CounterLap', 8, shards=8, fixed=True), rapid('^TestC11PingSlotOwnership', 6, shards=1, fixed=True)]),
+        thorough=dict(engines=[rapid('^TestC11Requests', 60000, shards=14, steps=70, timeout=1500), rapid('^TestC11Requests', 2000, shards=8, steps=50, timeout=1500, race=True), rapid('^TestC11CounterLap', 56, shards=14, timeout=1500, fixed=True), rapid('^TestC11PingSlotOwnership', 6, shards=1, fixed=True)]),
     ),
     'C12': dict(
         claimed=True,
